@@ -1,0 +1,15 @@
+//go:build verif
+
+package transform
+
+// VerifTables exports the pattern keys of the rule tables (verification builds only).
+func VerifTables() map[string][]string {
+	out := map[string][]string{}
+	for k := range transformers {
+		out["transform.transformers"] = append(out["transform.transformers"], string(k))
+	}
+	for k := range defaultValues {
+		out["transform.defaultValues"] = append(out["transform.defaultValues"], string(k))
+	}
+	return out
+}
